@@ -64,6 +64,7 @@ def input_tables(sim, env) -> Dict[str, Any]:
                 continue        # a request whose membership does not fit the scenario is never admitted
             try:
                 dep = int(SimTime.build(row["departure_time"]))
+                [float(row[c]) for c in ("o_lat", "o_lon", "d_lat", "d_lon")]      # a row that cannot be parsed is skipped
             except Exception:
                 continue
             out["reqfile"].append([row["request_id"], dep])
